@@ -69,7 +69,7 @@ def run_programs(prop, conf, tier, seed, shard, nshards, budget, col, maxprog=No
     pidx = int(prop[1:])
     t0 = time.time()
     prog = 0
-    nsteps_rng = conf.get("steps", (4, 12))
+    nsteps_rng = conf.get("steps", (4, 12) if tier == "quick" else (6, 20))
     while time.time() - t0 < budget and (maxprog is None or prog < maxprog):
         rng = np.random.default_rng([seed, pidx, shard, prog])
         srng = np.random.default_rng([seed, pidx, shard, prog, 7])
